@@ -24,11 +24,13 @@ View == <<cfg, n, tk, sd, sdw>>
 Shapes == {[ids |-> 1, max |-> MaxTasks], [ids |-> Cardinality(Ids), max |-> MaxTasks - 1]}
 \* pf = Shutdown is additionally given PanicOnModificationsAfterShutdown: a later ExecuteAt panics instead of returning nil - and
 \* nothing else changes (what was pending still runs or is dropped as the other flags say, the shutdown still completes)
-\* mq = WithMaxQueueSize (0 = unbounded).  The histories of a bounded executor stay inside the bound (the model never lets the queue
-\* exceed it, so nothing is ever dropped by the bound): what is checked is that a task which REPLACES the pending task of its
-\* identifier does not count twice - the replaced task is gone before the new one is queued.
-Cfgs == {[workers |-> w, ids |-> sh.ids, max |-> sh.max, pf |-> f, mq |-> q] : w \in WorkerCounts, sh \in Shapes, f \in BOOLEAN, q \in {0, 1}}
-          \ {c \in [workers : WorkerCounts, ids : 1..Cardinality(Ids), max : 1..MaxTasks, pf : BOOLEAN, mq : {0, 1}] : c.pf /\ c.mq # 0}
+\* mq = WithMaxQueueSize (0 = unbounded, 1 = one queued task besides those the workers hold).  A task that REPLACES the pending task
+\* of its identifier does not count twice (the replaced task is gone before the new one is queued).  When the queue would hold two
+\* tasks the later one is dropped (of two equal times: the newcomer) - it is not pending anymore, so it never runs, a new task of
+\* its identifier replaces nothing, and Cancel of its identifier prevents nothing and says so.
+Cfgs == ({[workers |-> w, ids |-> sh.ids, max |-> sh.max, pf |-> f, mq |-> q] : w \in WorkerCounts, sh \in Shapes, f \in BOOLEAN, q \in {0, 1}}
+          \ {c \in [workers : WorkerCounts, ids : 1..Cardinality(Ids), max : 1..MaxTasks, pf : BOOLEAN, mq : {0, 1}] : c.pf /\ c.mq # 0})
+        \cup {[workers |-> 1, ids |-> 3, max |-> 3, pf |-> FALSE, mq |-> 1]}     \* three identifiers: the bound drops a task nobody replaced
 Tasks == 1..MaxTasks
 NoTask == <<0, 0, "none">>      \* <<identifier, time, state>> (tuples, not records: ToString(View) must be canonical)
 SSeq(S) == SetToSortSeq(S, <)
@@ -68,13 +70,20 @@ Do(s0) ==
   CASE s.op = "reset" -> /\ cfg' = s.cfg /\ n' = 0 /\ tk' = [k \in Tasks |-> NoTask] /\ sd' = "no" /\ sdw' = FALSE /\ ev' = s
     [] s.op = "Exec" ->        \* ExecuteAt(id, callback, t)
          /\ UNCHANGED cfg /\ n < cfg.max /\ s.id <= cfg.ids /\ n' = n + 1
+         /\ (cfg.ids = 3 => s.id = n + 1)        \* (three identifiers: each is scheduled once, in turn - keeps that configuration small)
          /\ IF sd # "no"
               THEN /\ Pending(tk, s.id) = {}          \* (a refused re-schedule of a pending identifier is not exercised)
                    /\ Finish(s, tk, sd, IF cfg.pf THEN "panic" ELSE "refused")
               ELSE LET T0 == [k \in Tasks |-> IF k \in Pending(tk, s.id) THEN [tk[k] EXCEPT ![3] = "out"]       \* replaces the pending task
                                               ELSE IF k = n + 1 THEN <<s.id, s.t, "heap">> ELSE tk[k]]
-                   IN /\ (cfg.mq = 0 \/ Cardinality(In(T0, "heap")) <= cfg.mq)
-                      /\ Finish(s, T0, sd, "ok")
+                       H0 == In(T0, "heap")
+                       over == cfg.mq > 0 /\ Cardinality(H0) > cfg.mq
+                       old == CHOOSE o \in H0 : over => o # n + 1
+                       victim == IF Before(T0, n + 1, old) THEN old ELSE n + 1
+                       T1 == IF over THEN [T0 EXCEPT ![victim][3] = "out"] ELSE T0
+                       freed == \E k \in Pending(tk, s.id) : tk[k][3] = "held"    \* (replacing a task a worker holds frees that worker, which
+                   IN /\ (over => Cardinality(H0) = 2 /\ ~freed)                \*  takes a queued task at an unknown moment: not exercised)
+                      /\ Finish(s, T1, sd, "ok")
     [] s.op = "Cancel" ->      \* Cancel(id): true exactly when a pending task was prevented from running
          /\ UNCHANGED <<cfg, n>> /\ sd = "no" /\ s.id <= cfg.ids
          /\ LET P == Pending(tk, s.id) IN
@@ -91,13 +100,14 @@ Do(s0) ==
                       ELSE tk
             IN Finish(s, T0, s.fl, "")
 
-Stimuli == [op : {"Exec"}, id : Ids, t : Times] \cup [op : {"Cancel"}, id : Ids] \cup [op : {"Release"}, k : Tasks]
+AllIds == Ids \cup {3}       \* (the three-identifier configuration; s.id <= cfg.ids keeps the others to their own identifiers)
+Stimuli == [op : {"Exec"}, id : AllIds, t : Times] \cup [op : {"Cancel"}, id : AllIds] \cup [op : {"Release"}, k : Tasks]
            \cup [op : {"Shutdown"}, fl : {"none", "cancel", "ignore", "both"}]
 Next == \E s \in Stimuli : Do(s)
 Spec == Init /\ [][Next]_vars
 
 (* ---- the property, on the model ---- *)
-OnePendingPerId == \A i \in Ids : Cardinality(Pending(tk, i)) <= 1
+OnePendingPerId == \A i \in Ids \cup {3} : Cardinality(Pending(tk, i)) <= 1
 NeverEarly == \A k \in Tasks : tk[k][3] \in {"running", "done"} => (tk[k][2] <= LastDue \/ sd \in {"ignore", "both"})
 WorkersBounded == Cardinality(With("held")) + Cardinality(With("running")) <= cfg.workers
 (* no worker idles while a task is queued *)
